@@ -41,6 +41,7 @@ for t, c in FT.items():
     U.add('fastmix_' + t, *sig, 'stq(o, glm::fastMix(%s(a), %s(b), c[0]));' % (Q, Q))
     U.add('squad_' + t, [(c, 4), (c, 4), (c, 4), (c, 4), (c, 1)], [(c, 4)], 'stq(o, glm::squad(%s(a), %s(b), %s(c), %s(d), e[0]));' % (Q, Q, Q, Q))
     U.add('intermediate_' + t, [(c, 4)], [(c, 4)], 'auto q = %s(a); stq(o, glm::intermediate(q, q, q));' % Q)
+    U.add('intermediate3_' + t, [(c, 4), (c, 4)], [(c, 4)], 'auto q = %s(a); auto d = %s(b); stq(o, glm::intermediate(glm::conjugate(d) * q, q, d * q));' % (Q, Q))
     U.add('qexp_' + t, [(c, 4)], [(c, 4)], 'stq(o, glm::exp(%s(a)));' % Q)
     U.add('dqlerp_' + t, [(c, 8), (c, 8), (c, 1)], [(c, 8)],
           'glm::tdualquat<%s> x(%s(a), %s(a+4)), y(%s(b), %s(b+4)); auto r = glm::lerp(x, y, c[0]); stq(o, r.real); stq(o+4, r.dual);' % (c, Q, Q, Q, Q))
@@ -95,6 +96,7 @@ def mkex(unit_, mode, unwind):
     ex = Exec(unit_.module(), fmode='real' if mode == 'real' else 'fp', unwind=unwind)
     if mode == 'real':
         realtrig.map_pi_literals(ex); ex.trig_domain = True; ex.model_inputs_hook = realtrig.model_inputs_hook
+        ex.real_nonfinite = 'oblige'      # an inf/NaN literal becomes an arbitrary real plus the side obligation that the block evaluating it is unreachable (quaternion log returns inf on one path)
     return ex
 def chk(S, unit_, fn, spec, pre=None, setup=None, **kw):
     """check_fn in real mode; spec(i, o, T) gets a Trig context bound to the executor that ran the code; setup(res, T) may instantiate true trigonometric facts on its table"""
@@ -358,19 +360,21 @@ def job_squad(t):
                 S.prove('c13.%s.h=%d.%s[%s]#%d' % (name, hv, kind_, d[:60], len(seen)), z3.Not(c), hy, timeout=S.cap(40, 120), solver='nra', kind=kind_, functions=fl, bounds=bd, replay=lambda m: ('no-replay', {}))
     return run
 
+KF_INT, KF_EXP = 'KF-C13-intermediate-zero', 'KF-C13-quat-exp-zero-angle'
+REGIONS = {'all': lambda res, i: z3.BoolVal(True),
+           'exp_small': lambda res, i: norm2(res.ins[0][1:]) < EPS[res.fn.name[-3:]] * EPS[res.fn.name[-3:]]}
 def job_intermediate(t):
-    """gtx intermediate (squad control point) and the quaternion exponential it is built on.  When the three key frames coincide the two logarithms vanish and the control point is the key
-    frame itself (every convention for the squad tangent agrees on this).  Rounding-erased execution of intermediate is not possible (log() returns an infinity constant on one path), so
-    [fp] the claim is decided bit-precisely on the key frames q = (+-1, +-0, +-0, +-0), where every product is exact; [real] exp(q) has the documented shape (cos|v|, sin|v| v/|v|) and is
-    within eps of the identity below its small-angle threshold."""
-    w = 32 if t == 'f32' else 64; eps = EPS[t]
+    """gtx intermediate (squad control point) and the quaternion exponential it is built on.  When the three key frames coincide - more generally when prev = d^-1 curr and next = d curr are
+    equally spaced on one geodesic (d unit, d.w > 0) - the two logarithms cancel and the control point is curr itself (every convention for the squad tangent agrees on this).
+    exp(q) has the documented shape (cos|v|, sin|v| v/|v|) and must be within eps of the identity below its small-angle threshold.  log() of real numbers is uninterpreted (no fact needed);
+    the infinity literals returned by the quaternion log for the zero quaternion are shown unreachable."""
+    eps = EPS[t]
     def run(S):
-        one = FPV(1.0, w); mag = (1 << (w - 1)) - 1
-        def pre(i): return [z3.fpEQ(z3.fpAbs(fpof(i[0][0])), one)] + [(i[0][j] & mag) == 0 for j in (1, 2, 3)]
-        def spec(i, o):
-            return [('intermediate(q,q,q).w==q.w', z3.fpEQ(o[0][0].fp, fpof(i[0][0])))] + [('intermediate(q,q,q)[%d]==0' % j, z3.fpIsZero(o[0][j].fp)) for j in (1, 2, 3)]
-        S.check_fn(U, 'intermediate_' + t, spec, pre, mode='fp', known=['KF-C13-intermediate-zero'], timeout=S.cap(30, 90),
-                   bounds='q = (+-1, +-0, +-0, +-0) (16 bit patterns, all arithmetic exact); libm log/atan2/sin/cos uninterpreted')
+        kw = dict(solver='z3', timeout=S.cap(40, 120))
+        chk(S, U, 'intermediate_' + t, lambda i, o, T: [('intermediate(q,q,q)[%d]==q' % j, REq(rv(o[0][j]), i[0][j])) for j in range(4)], lambda i: [norm2(i[0]) > 0], known=[KF_INT],
+            bounds='all non-zero q; log/exp of real numbers uninterpreted', **kw)
+        chk(S, U, 'intermediate3_' + t, lambda i, o, T: [('intermediate(d^-1 q,q,d q)[%d]==q' % j, REq(rv(o[0][j]), i[0][j])) for j in range(4)], lambda i: [unit(i[0]), unit(i[1]), i[1][0] > 0], known=[KF_INT],
+            bounds='all unit q, unit d with d.w > 0 (rotation by less than pi on either side)', mandatory=False, **kw)
         def spec_e(i, o, T):
             q = i[0]; v = q[1:]; X = norm2(v); A = T.sqrt(0, X); out = [rv(x) for x in o[0]]; big = z3.Not(A < eps); small = A < eps
             g = [('exp.sqrt.arg==|v|^2', REq(T.sqrt_arg(0, X), X)), ('exp.w==cos|v|', RGoal('eq', out[0], T.cos(A), big))]
@@ -378,7 +382,7 @@ def job_intermediate(t):
             g += [('exp.small-angle.w>=1-eps', RGoal('ge', out[0], 1 - eps, small)), ('exp.small-angle.w<=1', RGoal('le', out[0], ONE, small))]
             g += [('exp.small-angle.xyz[%d]^2<=eps^2' % j, RGoal('le', out[j] * out[j], eps * eps, small)) for j in (1, 2, 3)]
             return g
-        chk(S, U, 'qexp_' + t, spec_e, None, known=['KF-C13-intermediate-zero'],
+        chk(S, U, 'qexp_' + t, spec_e, None, known=[KF_EXP],
             bounds='all real quaternions (the scalar part is ignored by glm::exp: pure-quaternion exponential); |v| >= eps: (cos|v|, sin|v| v/|v|); |v| < eps: within eps of the identity')
     return run
 
